@@ -104,7 +104,7 @@ def model(case):
 
 def judge(case, res):
     exp, log, info = model(case)
-    for mode in ("top", "inside", "frames"):
+    for mode in ("top", "inside", "frames", "stack"):
         if mode not in res:
             continue
         got = res[mode]
@@ -122,6 +122,13 @@ def judge(case, res):
         if got["log"] != log:
             return "%s: hook invocation log differs from the reference loop:\n got %r\n exp %r" % (mode, got["log"], log)
         for k in ("obj", "hide", "desc", "inner", "children"):
+            if mode == "stack" and k == "desc":
+                # an exit-stack child's description is composed by the glue around whatever the hooks said:
+                # "<stack>.enter_context(<hook's description, or the manager's repr>)"
+                if exp[k] is not None and exp[k] != "GLUE" and ("(%s)" % exp[k]) not in (got.get("desc_raw") or ""):
+                    return "stack: the child's description %r does not carry the hook's description %r" % (
+                        got.get("desc_raw"), exp[k])
+                continue
             if got.get(k) != exp[k]:
                 return "%s: final %s is %r, reference says %r (got %r)" % (mode, k, got.get(k), exp[k], got)
     return None
